@@ -277,6 +277,26 @@ class Image:
                     d[a1:a1 + 512], d[a2:a2 + 512] = bytes(d[a2:a2 + 512]), bytes(d[a1:a1 + 512])
                     self._mark(a1, a1 + 512)
                     self._mark(a2, a2 + 512)
+        elif kind == 'xmlattr':
+            # MRV: damage that keeps the document well-formed (a non-recovering XML parser cannot resynchronise otherwise):
+            # an attribute value is replaced or an attribute is removed
+            import re
+            ms = list(re.finditer(rb' (\w+)="([^"<&]*)"', bytes(d)))
+            if not ms:
+                return 'noop'
+            m = ms[int(op.get('pos', 0.5) * (len(ms) - 1))]
+            a, b = m.span()
+            if op.get('mode', 0) % 3 == 0:
+                new = b''                                         # attribute removed
+            elif op.get('mode', 0) % 3 == 1:
+                new = b' ' + m.group(1) + b'="' + op.get('value', 'x').encode() + b'"'
+            else:
+                new = b' ' + m.group(1) + b'=""'
+            own = self.owner[a]
+            d[a:b] = new
+            self.owner[a:b] = [own] * len(new)
+            self.dmg[a:b] = b'\x01' * len(new)
+            self._mark(a - 1, a + len(new) + 1)
         elif kind == 'tear':
             cut = pos
             if op.get('sector'):
@@ -644,7 +664,9 @@ def _execute(trace, probes, scratch):
     # ---- stored-byte damage
     damaged = False
     for op in trace.get('damage') or []:
-        if fmt == 'mrv' and op['kind'] != 'tear':
+        if fmt == 'mrv' and op['kind'] not in ('tear', 'xmlattr'):
+            continue
+        if fmt != 'mrv' and op['kind'] == 'xmlattr':
             continue
         k = img.apply(op)
         probes['fault:damage:' + k] += 1
@@ -711,7 +733,7 @@ def _execute(trace, probes, scratch):
         if rp.get('buffer_size'):
             from chython.exceptions import BufferOverflow
             allowed.append(BufferOverflow)
-        if fmt == 'mrv' and faulty:
+        if fmt == 'mrv' and (res['crashed'] or res['failed'] or any(op['kind'] == 'tear' for op in trace.get('damage') or [])):
             from lxml.etree import XMLSyntaxError
             allowed.append(XMLSyntaxError)
         if exc is not None:
@@ -1015,7 +1037,12 @@ def generate(seed):
         for _ in range(f.choice([1, 1, 1, 2, 3])):
             k = f.choice(['flip', 'flip', 'set', 'delbyte', 'insbyte', 'delline', 'dupline', 'truncline', 'zerosector',
                           'swapsectors', 'tear', 'tear'])
+            if fmt == 'mrv':
+                k = f.choice(['xmlattr', 'xmlattr', 'xmlattr', 'tear'])
             op = {'kind': k, 'pos': f.random()}
+            if k == 'xmlattr':
+                op['mode'] = f.randrange(3)
+                op['value'] = f.choice(['x', '0', '-1', 'Zz', '99', 'a1 a2', '1e9'])
             if k == 'flip':
                 op['bit'] = f.randrange(8)
             elif k in ('set', 'insbyte'):
